@@ -145,6 +145,14 @@ def check_evaluate(ctx: Ctx):
     check_single_instance(ctx)
 
 
+class _MaskTest:
+    """Truth value 'the selected mask has (no) set voxel'."""
+
+    def __init__(self, mask, nonempty: bool):
+        self.mask = mask
+        self.nonempty = nonempty
+
+
 def check_single_instance(ctx: Ctx):
     """_evaluate_instance: same label selected on both sides, cropped with one crop, metrics on (ref, pred)."""
     prog = ctx.prog
@@ -155,12 +163,6 @@ def check_single_instance(ctx: Ctx):
     holder = []
 
     class InstInterp(ArrInterp):
-        def external_call(self, name, args, kwargs, node):
-            if name.endswith("_get_paired_crop"):
-                self.root.crop_args = list(args) + list(kwargs.values())
-                return Sym("CROP")
-            return super().external_call(name, args, kwargs, node)
-
         def subscript_hook(self, base, idx, node):
             if isinstance(base, AMask) and idx == Sym("CROP"):
                 m = AMask(base.of, base.kind, base.detail)
@@ -168,25 +170,56 @@ def check_single_instance(ctx: Ctx):
                 return m
             return super().subscript_hook(base, idx, node)
 
-        def arr_method(self, a, name, args, kwargs, node):
-            if isinstance(a, AMask) and name == "sum":
-                from .arrdom import EmptyTest, Reduction
+        # emptiness of a selected mask: m.sum() == 0, np.count_nonzero(m) < 1, not m.any(), ...
+        def _empty_unknown(self, mask):
+            return self.root.__dict__.setdefault("_mask_empty", {}).setdefault(mask.of.side, Unknown(f"selected-empty:{mask.of.side}"))
 
+        def arr_method(self, a, name, args, kwargs, node):
+            from .arrdom import Reduction
+
+            if isinstance(a, AMask) and name == "sum" and not args and not kwargs:
                 r = Reduction("count", a.of)
                 r.mask = a
                 return r
+            if isinstance(a, AMask) and name == "any" and not args and not kwargs:
+                return _MaskTest(a, True)
             return super().arr_method(a, name, args, kwargs, node)
+
+        def external_call(self, name, args, kwargs, node):
+            from .arrdom import Reduction
+
+            if name.endswith("_get_paired_crop"):
+                self.root.crop_args = list(args) + list(kwargs.values())
+                return Sym("CROP")
+            if name in ("numpy.sum", "numpy.count_nonzero") and len(args) == 1 and not kwargs and isinstance(args[0], AMask):
+                r = Reduction("count", args[0].of)
+                r.mask = args[0]
+                return r
+            if name == "numpy.any" and len(args) == 1 and not kwargs and isinstance(args[0], AMask):
+                return _MaskTest(args[0], True)
+            return super().external_call(name, args, kwargs, node)
 
         def compare_hook(self, op, l, r, node):
             from .arrdom import Reduction
 
-            if isinstance(l, Reduction) and getattr(l, "mask", None) is not None and r == 0:
-                u = self.root.__dict__.setdefault("_mask_empty", {}).setdefault(l.mask.of.side, Unknown(f"selected-empty:{l.mask.of.side}"))
+            if isinstance(l, Reduction) and getattr(l, "mask", None) is not None and isinstance(r, int) and not isinstance(r, bool):
                 k = type(op)
-                if k in (ast.Eq, ast.LtE):
-                    return u
+                if (r == 0 and k in (ast.Eq, ast.LtE)) or (r == 1 and k is ast.Lt):
+                    return _MaskTest(l.mask, False)
+                if (r == 0 and k in (ast.NotEq, ast.Gt)) or (r == 1 and k is ast.GtE):
+                    return _MaskTest(l.mask, True)
                 return Unknown("cmp")
             return super().compare_hook(op, l, r, node)
+
+        def truth_hook(self, v, node):
+            from .arrdom import Reduction
+
+            if isinstance(v, _MaskTest):
+                d = self.decide(node, self._empty_unknown(v.mask))
+                return (not d) if v.nonempty else d
+            if isinstance(v, Reduction) and getattr(v, "mask", None) is not None:
+                return not self.decide(node, self._empty_unknown(v.mask))
+            return super().truth_hook(v, node)
 
     def make(prefix):
         ref, pred = AArr("REF", False), AArr("PRED", False)
